@@ -71,6 +71,25 @@ Definition leaf_fits (cells : list cell) : bool :=
 Definition int_fits (cells : list cell) : bool :=
   sum_len int_cell_len cells + bt_slot_size * count cells <=? bt_page_size - bt_internal_header.
 
+(* split_point of btree.rs: the position closest to the median for which both halves fit a page.
+     mid = len/2; while mid > 0 && !fits_left(mid) { mid -= 1 }; while mid+1 < len && !fits_right(mid) { mid += 1 };
+     None if len = 0 or a half still does not fit *)
+Fixpoint dec_loop (fits_l : nat -> bool) (mid : nat) : nat :=
+  match mid with
+  | O => O
+  | S m => if fits_l mid then mid else dec_loop fits_l m
+  end.
+Fixpoint inc_loop (fuel : nat) (fits_r : nat -> bool) (len mid : nat) : nat :=
+  match fuel with
+  | O => mid
+  | S f => if Nat.ltb (S mid) len && negb (fits_r mid) then inc_loop f fits_r len (S mid) else mid
+  end.
+Definition split_point (fits_l fits_r : nat -> bool) (len : nat) : option nat :=
+  if Nat.eqb len 0 then None
+  else
+    let m := inc_loop len fits_r len (dec_loop fits_l (Nat.div len 2)) in
+    if fits_l m && fits_r m then Some m else None.
+
 (* ---------- the three binary searches ---------- *)
 (* leaf_lower_bound: while lo < hi { mid = (lo+hi)/2; if k[mid] < target {lo = mid+1} else {hi = mid} } *)
 Fixpoint lb_loop (fuel : nat) (cells : list cell) (target : key) (lo hi : nat) : nat :=
@@ -164,32 +183,36 @@ Definition depth_fuel : nat := 64.
 Inductive ins_res :=
 | IDone (h : heap) (next : N)
 | ISplit (h : heap) (next : N) (sep : key) (rsib : N)
-| IErr (h : heap) (next : N) (e : err)
-| IPanic (h : heap) (next : N).
+| IErr (h : heap) (next : N) (e : err).
 
-Definition split_leaf_entries (cells : list cell) (k : key) (v : N) : list cell * list cell :=
-  let pos := snd (bsearch (map (fun c => lex_cmp (fst c) k) cells)) in
-  let entries := insert_at pos (k, v) cells in
-  let mid := Nat.div (length entries) 2 in
-  (firstn mid entries, skipn mid entries).
+(* the sorted entry list of an overfull leaf with the new entry put in (position by binary_search_by) *)
+Definition leaf_entries (cells : list cell) (k : key) (v : N) : list cell :=
+  insert_at (snd (bsearch (map (fun c => lex_cmp (fst c) k) cells))) (k, v) cells.
+Definition leaf_split_point (entries : list cell) : option nat :=
+  split_point (fun m => leaf_fits (firstn m entries)) (fun m => leaf_fits (skipn m entries)) (length entries).
 
 Definition ins_leaf (h : heap) (next : N) (p : N) (cells : list cell) (rsib dead : N) (k : key) (v : N) : ins_res :=
   let idx := lower_bound cells k in
   if leaf_can_insert cells dead k then
     IDone (hset h p (Leaf (insert_at idx (k, v) cells) rsib dead)) next
   else
-    let (l, r) := split_leaf_entries cells k v in
-    let sep := fst (hd ([], 0) r) in
-    match alloc next with
-    | None => IErr h next EPageRange
-    | Some (rid, next') =>
-        (* rebuild_leaf(right) then rebuild_leaf(left): leaf_insert_at(..).unwrap() *)
-        if negb (leaf_fits r) then IPanic h next'
-        else if negb (leaf_fits l) then IPanic h next'
-        else ISplit (hset (hset h p (Leaf l rid 0)) rid (Leaf r rsib 0)) next' sep rid
+    let entries := leaf_entries cells k v in
+    match leaf_split_point entries with
+    | None => IErr h next ENoSpace            (* before anything is allocated or written *)
+    | Some mid =>
+        let l := firstn mid entries in
+        let r := skipn mid entries in
+        let sep := fst (hd ([], 0) r) in
+        match alloc next with
+        | None => IErr h next EPageRange
+        | Some (rid, next') => ISplit (hset (hset h p (Leaf l rid 0)) rid (Leaf r rsib 0)) next' sep rid
+        end
     end.
 
 (* insert_into_parent for one popped path entry (page p, child_pos pos) *)
+Definition int_split_point (all : list cell) : option nat :=
+  split_point (fun m => int_fits (firstn m all)) (fun m => int_fits (skipn (S m) all)) (length all).
+
 Definition ins_parent (h : heap) (next : N) (p : N) (pos : nat) (sep : key) (rid : N) : ins_res :=
   match hget h p with
   | Some (Internal lm cells) =>
@@ -197,17 +220,17 @@ Definition ins_parent (h : heap) (next : N) (p : N) (pos : nat) (sep : key) (rid
         IDone (hset h p (Internal lm (insert_at pos (sep, rid) cells))) next
       else
         let all := insert_at pos (sep, rid) cells in
-        let mid := Nat.div (length all) 2 in
-        let promote := fst (nth mid all ([], 0)) in
-        let lc := firstn mid all in
-        let rlm := snd (nth mid all ([], 0)) in
-        let rc := skipn (S mid) all in
-        match alloc next with
-        | None => IErr h next EPageRange
-        | Some (rp, next') =>
-            if negb (int_fits lc) then IErr h next' ENoSpace
-            else if negb (int_fits rc) then IErr h next' ENoSpace
-            else ISplit (hset (hset h p (Internal lm lc)) rp (Internal rlm rc)) next' promote rp
+        match int_split_point all with
+        | None => IErr h next ENoSpace
+        | Some mid =>
+            let promote := fst (nth mid all ([], 0)) in
+            let lc := firstn mid all in
+            let rlm := snd (nth mid all ([], 0)) in
+            let rc := skipn (S mid) all in
+            match alloc next with
+            | None => IErr h next EPageRange
+            | Some (rp, next') => ISplit (hset (hset h p (Internal lm lc)) rp (Internal rlm rc)) next' promote rp
+            end
         end
   | _ => IErr h next EBadPage
   end.
@@ -240,7 +263,6 @@ Definition insert (st : state) (k : key) (v : N) : state * res :=
   match ins depth_fuel (st_heap st) (st_next st) (st_root st) k v with
   | IDone h n => ({| st_heap := h; st_next := n; st_root := st_root st |}, RUnit)
   | IErr h n e => ({| st_heap := h; st_next := n; st_root := st_root st |}, RErr e)
-  | IPanic h n => ({| st_heap := h; st_next := n; st_root := st_root st |}, RPanic)
   | ISplit h n sep rid =>
       match alloc n with
       | None => ({| st_heap := h; st_next := n; st_root := st_root st |}, RErr EPageRange)
